@@ -1059,8 +1059,7 @@ bufferevent_add_event_(struct event *ev, const struct timeval *tv)
 		/* Forget the interval of an earlier timed add: a persistent
 		 * event would otherwise re-arm it after its next activation
 		 * although the timeout has been cleared. */
-		if (!event_pending(ev, EV_TIMEOUT, NULL))
-			evutil_timerclear(&ev->ev_io_timeout);
+		event_clear_persist_timeout_(ev);
 		return event_add(ev, NULL);
 	} else
 		return event_add(ev, tv);
